@@ -18,13 +18,18 @@ use pallas_codec::utils::*;
 use verif_harness::*;
 
 // ------------------------------------------------------------------ the value trait
-trait Hv: Sized + minicbor::Decode<'static, ()> + minicbor::Encode<()> {
+trait Hv: Sized + Clone + minicbor::Decode<'static, ()> + minicbor::Encode<()> {
     fn ty() -> String;
     /// form-preserving: re-encodes every accepted byte string exactly
     fn exact() -> bool;
     fn val(&self) -> String;
     /// the value expected back from decode(encode(self))
     fn back(&self) -> String { self.val() }
+    /// the same value with every KeepRaw inside detached from the input buffer (`to_owned()`);
+    /// None when the type carries no borrowed raw bytes
+    fn detached(&self) -> Option<Self> { None }
+    /// does the type contain a KeepRaw?
+    fn has_raw() -> bool { false }
     fn gen(rng: &mut Rng, depth: u32) -> Self;
     /// bytes that the decoder (mostly) accepts, with arbitrary head forms
     fn wire(rng: &mut Rng, depth: u32) -> Vec<u8>;
@@ -122,6 +127,8 @@ impl<T: Hv + Clone> Hv for KeepRaw<'static, T> {
         let raw = if self.raw_cbor().is_empty() { enc(&**self) } else { self.raw_cbor().to_vec() };
         format!("(VRaw {} {})", coq_bytes(&raw), (**self).back())
     }
+    fn detached(&self) -> Option<Self> { Some(self.clone().to_owned()) }
+    fn has_raw() -> bool { true }
     fn gen(rng: &mut Rng, depth: u32) -> Self { KeepRaw::from(T::gen(rng, depth)) }
     fn wire(rng: &mut Rng, depth: u32) -> Vec<u8> { T::wire(rng, depth) }
 }
@@ -135,6 +142,10 @@ fn count(rng: &mut Rng, depth: u32) -> (u64, u32) {
 
 fn list_val<T: Hv>(indef: bool, xs: &[T], back: bool) -> String {
     format!("(VList {} {})", coq_bool(indef), coq_list(xs, |x| if back { x.back() } else { x.val() }))
+}
+fn detach_vec<T: Hv>(xs: &[T]) -> Option<Vec<T>> {
+    if !T::has_raw() { return None }
+    xs.iter().map(|x| x.detached()).collect()
 }
 fn gen_vec<T: Hv>(rng: &mut Rng, depth: u32) -> Vec<T> {
     let (n, d) = count(rng, depth);
@@ -154,6 +165,8 @@ impl<T: Hv> Hv for Vec<T> {
     fn exact() -> bool { false }
     fn val(&self) -> String { list_val(false, self, false) }
     fn back(&self) -> String { list_val(false, self, true) }
+    fn detached(&self) -> Option<Self> { detach_vec(self) }
+    fn has_raw() -> bool { T::has_raw() }
     fn gen(rng: &mut Rng, depth: u32) -> Self { gen_vec(rng, depth) }
     fn wire(rng: &mut Rng, depth: u32) -> Vec<u8> { array_wire::<T>(rng, depth) }
 }
@@ -163,6 +176,8 @@ impl<T: Hv> Hv for MaybeIndefArray<T> {
     fn exact() -> bool { T::exact() }
     fn val(&self) -> String { match self { MaybeIndefArray::Def(x) => list_val(false, x, false), MaybeIndefArray::Indef(x) => list_val(true, x, false) } }
     fn back(&self) -> String { match self { MaybeIndefArray::Def(x) => list_val(false, x, true), MaybeIndefArray::Indef(x) => list_val(true, x, true) } }
+    fn has_raw() -> bool { T::has_raw() }
+    fn detached(&self) -> Option<Self> { match self { MaybeIndefArray::Def(x) => detach_vec(x).map(MaybeIndefArray::Def), MaybeIndefArray::Indef(x) => detach_vec(x).map(MaybeIndefArray::Indef) } }
     fn gen(rng: &mut Rng, depth: u32) -> Self { let v = gen_vec(rng, depth); if rng.bool() { MaybeIndefArray::Def(v) } else { MaybeIndefArray::Indef(v) } }
     fn wire(rng: &mut Rng, depth: u32) -> Vec<u8> { array_wire::<T>(rng, depth) }
 }
@@ -172,6 +187,8 @@ impl<T: Hv + Clone> Hv for Nullable<T> {
     fn exact() -> bool { T::exact() }
     fn val(&self) -> String { match self { Nullable::Some(x) => format!("(VSome {})", x.val()), Nullable::Null => "VNull".into(), Nullable::Undefined => "VUndef".into() } }
     fn back(&self) -> String { match self { Nullable::Some(x) => format!("(VSome {})", x.back()), Nullable::Null => "VNull".into(), Nullable::Undefined => "VUndef".into() } }
+    fn has_raw() -> bool { T::has_raw() }
+    fn detached(&self) -> Option<Self> { if !T::has_raw() { return None } match self { Nullable::Some(x) => x.detached().map(Nullable::Some), Nullable::Null => Some(Nullable::Null), Nullable::Undefined => Some(Nullable::Undefined) } }
     fn gen(rng: &mut Rng, depth: u32) -> Self { match rng.below(4) { 0 => Nullable::Null, 1 => Nullable::Undefined, _ => Nullable::Some(T::gen(rng, depth)) } }
     fn wire(rng: &mut Rng, depth: u32) -> Vec<u8> { match rng.below(4) { 0 => vec![0xf6], 1 => vec![0xf7], _ => T::wire(rng, depth) } }
 }
@@ -187,6 +204,8 @@ impl<T: Hv> Hv for Set<T> {
     fn exact() -> bool { false }
     fn val(&self) -> String { list_val(false, self, false) }
     fn back(&self) -> String { list_val(false, self, true) }
+    fn has_raw() -> bool { T::has_raw() }
+    fn detached(&self) -> Option<Self> { detach_vec(self).map(Set::from) }
     fn gen(rng: &mut Rng, depth: u32) -> Self { Set::from(gen_vec(rng, depth)) }
     fn wire(rng: &mut Rng, depth: u32) -> Vec<u8> { set_wire::<T>(rng, depth) }
 }
@@ -195,6 +214,8 @@ impl<T: Hv> Hv for NonEmptySet<T> {
     fn exact() -> bool { false }
     fn val(&self) -> String { list_val(false, self, false) }
     fn back(&self) -> String { list_val(false, self, true) }
+    fn has_raw() -> bool { T::has_raw() }
+    fn detached(&self) -> Option<Self> { detach_vec(self).and_then(NonEmptySet::from_vec) }
     fn gen(rng: &mut Rng, depth: u32) -> Self { let mut v: Vec<T> = gen_vec(rng, depth); if v.is_empty() { v.push(T::gen(rng, 0)) } NonEmptySet::from_vec(v).unwrap() }
     fn wire(rng: &mut Rng, depth: u32) -> Vec<u8> { set_wire::<T>(rng, depth) }
 }
@@ -204,6 +225,8 @@ impl<T: Hv> Hv for CborWrap<T> {
     fn exact() -> bool { false }
     fn val(&self) -> String { self.0.val() }
     fn back(&self) -> String { self.0.back() }
+    fn has_raw() -> bool { T::has_raw() }
+    fn detached(&self) -> Option<Self> { self.0.detached().map(CborWrap) }
     fn gen(rng: &mut Rng, depth: u32) -> Self { CborWrap(T::gen(rng, depth)) }
     fn wire(rng: &mut Rng, depth: u32) -> Vec<u8> {
         let t = if rng.chance(1, 8) { *rng.pick(&[0u64, 23, 258]) } else { 24 };
@@ -221,6 +244,8 @@ impl<T: Hv, const N: u64> Hv for TagWrap<T, N> {
     fn exact() -> bool { false }
     fn val(&self) -> String { self.0.val() }
     fn back(&self) -> String { self.0.back() }
+    fn has_raw() -> bool { T::has_raw() }
+    fn detached(&self) -> Option<Self> { self.0.detached().map(TagWrap) }
     fn gen(rng: &mut Rng, depth: u32) -> Self { TagWrap(T::gen(rng, depth)) }
     fn wire(rng: &mut Rng, depth: u32) -> Vec<u8> {
         let t = if rng.chance(1, 8) { rng.below(300) } else { N };
@@ -272,6 +297,14 @@ impl<T: Hv> Hv for OrderPreservingProperties<T> {
 fn pairs_val<K: Hv, V: Hv>(indef: bool, xs: &[(K, V)], back: bool) -> String {
     format!("(VPairs {} {})", coq_bool(indef), coq_list(xs, |(k, v)| if back { format!("({},{})", k.back(), v.back()) } else { format!("({},{})", k.val(), v.val()) }))
 }
+fn detach_pairs<K: Hv, V: Hv>(xs: &[(K, V)]) -> Option<Vec<(K, V)>> {
+    if !(K::has_raw() || V::has_raw()) { return None }
+    xs.iter().map(|(k, v)| {
+        let k2 = if K::has_raw() { k.detached()? } else { k.clone() };
+        let v2 = if V::has_raw() { v.detached()? } else { v.clone() };
+        Some((k2, v2))
+    }).collect()
+}
 fn gen_pairs<K: Hv, V: Hv>(rng: &mut Rng, depth: u32) -> Vec<(K, V)> {
     let (n, d) = count(rng, depth);
     (0..n).map(|_| (K::gen(rng, d), V::gen(rng, d))).collect()
@@ -289,6 +322,8 @@ impl<K: Hv + Clone, V: Hv + Clone> Hv for KeyValuePairs<K, V> {
     fn exact() -> bool { K::exact() && V::exact() }
     fn val(&self) -> String { match self { KeyValuePairs::Def(x) => pairs_val(false, x, false), KeyValuePairs::Indef(x) => pairs_val(true, x, false) } }
     fn back(&self) -> String { match self { KeyValuePairs::Def(x) => pairs_val(false, x, true), KeyValuePairs::Indef(x) => pairs_val(true, x, true) } }
+    fn has_raw() -> bool { K::has_raw() || V::has_raw() }
+    fn detached(&self) -> Option<Self> { match self { KeyValuePairs::Def(x) => detach_pairs(x).map(KeyValuePairs::Def), KeyValuePairs::Indef(x) => detach_pairs(x).map(KeyValuePairs::Indef) } }
     fn gen(rng: &mut Rng, depth: u32) -> Self { let v = gen_pairs(rng, depth); if rng.bool() { KeyValuePairs::Def(v) } else { KeyValuePairs::Indef(v) } }
     fn wire(rng: &mut Rng, depth: u32) -> Vec<u8> { map_wire::<K, V>(rng, depth) }
 }
@@ -297,6 +332,8 @@ impl<K: Hv + Clone, V: Hv + Clone> Hv for NonEmptyKeyValuePairs<K, V> {
     fn exact() -> bool { K::exact() && V::exact() }
     fn val(&self) -> String { match self { NonEmptyKeyValuePairs::Def(x) => pairs_val(false, x, false), NonEmptyKeyValuePairs::Indef(x) => pairs_val(true, x, false) } }
     fn back(&self) -> String { match self { NonEmptyKeyValuePairs::Def(x) => pairs_val(false, x, true), NonEmptyKeyValuePairs::Indef(x) => pairs_val(true, x, true) } }
+    fn has_raw() -> bool { K::has_raw() || V::has_raw() }
+    fn detached(&self) -> Option<Self> { match self { NonEmptyKeyValuePairs::Def(x) => detach_pairs(x).map(NonEmptyKeyValuePairs::Def), NonEmptyKeyValuePairs::Indef(x) => detach_pairs(x).map(NonEmptyKeyValuePairs::Indef) } }
     fn gen(rng: &mut Rng, depth: u32) -> Self {
         let mut v: Vec<(K, V)> = gen_pairs(rng, depth);
         if v.is_empty() { v.push((K::gen(rng, 0), V::gen(rng, 0))) }
@@ -399,6 +436,21 @@ fn run_dec<T: Hv>(bytes: Vec<u8>, tag: &str, oo: bool) {
         _ => {}
     }
     if !oo { emit_case(tag, &format!("(CaseDec {} {} {})", T::ty(), coq_bytes(input), coq_res(&res))) }
+    // owned / detached life cycle: clone, to_owned and clone-of-owned keep the original bytes
+    if let (Res::Ok(_, _, re), Some(v)) = (&res, &_v) {
+        let mut variants: Vec<(&str, T)> = vec![("clone", v.clone())];
+        if let Some(d) = v.detached() { variants.push(("to_owned-clone", d.clone())); variants.push(("to_owned", d)); }
+        for (what, x) in variants {
+            let b = match guard_total(|| enc(&x)) { Out::Ok(b) => b, _ => { emit_oracle_fail(&format!("lifecycle-panic/{}", what), &format!("ty={} input={} encode of {} panicked", T::ty(), hex(input), what)); continue } };
+            if &b != re {
+                emit_oracle_fail(&format!("lifecycle/{}", what), &format!("ty={} input={} decoded value re-encodes {} but its {} re-encodes {} (the captured bytes must be preserved)", T::ty(), hex(input), hex(re), what, hex(&b)));
+            }
+            if !oo && what != "clone" {
+                let stat: &'static [u8] = Box::leak(b.clone().into_boxed_slice());
+                emit_case("lifecycle", &format!("(CaseEnc {} {} {} {})", T::ty(), x.val(), coq_bytes(&b), coq_res(&decode_real::<T>(stat).0)));
+            }
+        }
+    }
 }
 
 /// drop the raw fields "(VRaw [..] x)" -> "(VRaw x)" for comparing inner values only
@@ -430,6 +482,16 @@ fn run_enc<T: Hv>(v: T, tag: &str, oo: bool) {
         emit_oracle_fail(&key, &format!("ty={} value={} encoded={} decodes to {} (expected {})", T::ty(), val, hex(&bytes), coq_res(&res), back));
     }
     if !oo { emit_case(tag, &format!("(CaseEnc {} {} {} {})", T::ty(), val, coq_bytes(&bytes), coq_res(&res))) }
+    // built values (From<T>, raw empty): clone and to_owned encode the same bytes
+    let mut variants: Vec<(&str, T)> = vec![("clone", v.clone())];
+    if let Some(d) = v.detached() { variants.push(("to_owned", d)) }
+    for (what, x) in variants {
+        if let Out::Ok(b) = guard_total(|| enc(&x)) {
+            if b != bytes {
+                emit_oracle_fail(&format!("lifecycle/built-{}", what), &format!("ty={} value={} encodes {} but its {} encodes {}", T::ty(), val, hex(&bytes), what, hex(&b)));
+            }
+        }
+    }
 }
 
 /// KeepRaw: decode, mutate through deref_mut, re-encode: must come from the new content
@@ -447,7 +509,39 @@ fn run_keepraw_mutation<T: Hv + Clone>(rng: &mut Rng, depth: u32, oo: bool) {
     if !k.raw_cbor().is_empty() {
         emit_oracle_fail("keepraw-mutation", &format!("ty={} input={} raw not cleared by deref_mut", T::ty(), hex(input)));
     }
+    // the same through a detached value: to_owned keeps the bytes, a later mutation drops them
+    if let Ok(k0) = minicbor::decode::<KeepRaw<'static, T>>(input) {
+        let before = enc(&k0);
+        let mut owned = k0.clone().to_owned();
+        if enc(&owned) != before || owned.raw_cbor() != k0.raw_cbor() {
+            emit_oracle_fail("lifecycle/to_owned", &format!("ty={} input={} to_owned() changed the encoding: {} -> {}", T::ty(), hex(input), hex(&before), hex(&enc(&owned))));
+        }
+        *owned = newv.clone();
+        let after2 = enc(&owned);
+        if after2 != expect {
+            emit_oracle_fail("lifecycle/mutate-after-to_owned", &format!("ty={} input={} to_owned then assignment of {} encodes {} (expected {})", T::ty(), hex(input), newv.val(), hex(&after2), hex(&expect)));
+        }
+        if !oo { emit_case("lifecycle-mutated", &format!("(CaseEnc {} {} {} {})", <KeepRaw<'static, T>>::ty(), owned.val(), coq_bytes(&after2), coq_res(&decode_real::<KeepRaw<'static, T>>(Box::leak(after2.clone().into_boxed_slice())).0))) }
+    }
     if !oo { emit_case("keepraw-mutated", &format!("(CaseEnc {} {} {} {})", <KeepRaw<'static, T>>::ty(), k.val(), coq_bytes(&after), coq_res(&decode_real::<KeepRaw<'static, T>>(Box::leak(after.clone().into_boxed_slice())).0))) }
+}
+
+/// serde round trip of a KeepRaw (Serialize writes the inner value, Deserialize builds one without raw):
+/// the result must encode from its content
+fn run_keepraw_serde(rng: &mut Rng, oo: bool) {
+    type T = MaybeIndefArray<u64>;
+    let bytes = <T as Hv>::wire(rng, 2);
+    let input: &'static [u8] = Box::leak(bytes.into_boxed_slice());
+    let Ok(k) = minicbor::decode::<KeepRaw<'static, T>>(input) else { return };
+    let Ok(js) = serde_json::to_string(&k) else { return };
+    let Ok(k2) = serde_json::from_str::<KeepRaw<'static, T>>(&js) else {
+        emit_oracle_fail("lifecycle/serde", &format!("input={} json={} does not deserialize", hex(input), js)); return };
+    let expect = enc(&*k);
+    let got = enc(&k2);
+    if got != expect || k2.val() != format!("(VRaw [] {})", (*k).val()) {
+        emit_oracle_fail("lifecycle/serde", &format!("input={} serde round trip encodes {} (expected the canonical {}), value {}", hex(input), hex(&got), hex(&expect), k2.val()));
+    }
+    if !oo { emit_case("lifecycle-serde", &format!("(CaseEnc {} {} {} {})", <KeepRaw<'static, T>>::ty(), k2.val(), coq_bytes(&got), coq_res(&decode_real::<KeepRaw<'static, T>>(Box::leak(got.clone().into_boxed_slice())).0))) }
 }
 
 // ------------------------------------------------------------------ core streams
@@ -577,6 +671,13 @@ fn main() {
     for b in [vec![0xf6], vec![0xf7], vec![0xf4], vec![0xff], vec![], vec![0x18], vec![0x9f, 0xff], vec![0xbf, 0xff], vec![0x80], vec![0xa0], vec![0x9f, 0x01, 0x02, 0xff], vec![0x82, 0x01, 0x02], vec![0xd9, 0x01, 0x02, 0x80], vec![0xd9, 0x01, 0x02, 0x9f, 0xff], vec![0xd8, 0x18, 0x41, 0x05]] {
         for k in 0..NTYPES { for_type!(k, fixed_dec, b.clone(), oo) }
     }
+    for b in [vec![0x9f, 0x01, 0x02, 0xff], vec![0x98, 0x02, 0x01, 0x18, 0x02], vec![0x9f, 0x9f, 0x01, 0xff, 0xff], vec![0x9f, 0x9f, 0x01, 0xff, 0xff, 0xff]] {
+        fixed_dec::<T8>(b.clone(), oo);
+        fixed_dec::<T9>(b.clone(), oo);
+        fixed_dec::<T30>(b.clone(), oo);
+        fixed_dec::<KeepRaw<'static, MaybeIndefArray<MaybeIndefArray<u64>>>>(b.clone(), oo);
+        fixed_dec::<CborWrap<KeepRaw<'static, MaybeIndefArray<u64>>>>({ let mut v = vec![0xd8, 0x18]; v.extend(cborgen::head(2, W::min_for(b.len() as u64), b.len() as u64)); v.extend(&b); v }, oo);
+    }
     for x in [0u8, 23, 24, 255] {
         run_enc::<AnyUInt>(AnyUInt::MajorByte(x), "boundary", oo);
         run_enc::<AnyUInt>(AnyUInt::U8(x), "boundary", oo);
@@ -596,7 +697,7 @@ fn main() {
         match rng.below(10) {
             0..=3 => { let k = rng.below(NTYPES); for_type!(k, stream_dec, &mut rng, oo) }
             4..=5 => { let k = rng.below(NTYPES); for_type!(k, stream_enc, &mut rng, oo) }
-            6 => { match rng.below(3) { 0 => run_keepraw_mutation::<AnyUInt>(&mut rng, 2, oo), 1 => run_keepraw_mutation::<MaybeIndefArray<u64>>(&mut rng, 2, oo), _ => run_keepraw_mutation::<T13>(&mut rng, 2, oo) } }
+            6 => { match rng.below(4) { 0 => run_keepraw_mutation::<AnyUInt>(&mut rng, 2, oo), 1 => run_keepraw_mutation::<MaybeIndefArray<u64>>(&mut rng, 2, oo), 2 => run_keepraw_serde(&mut rng, oo), _ => run_keepraw_mutation::<T13>(&mut rng, 2, oo) } }
             7 => { let d = rng.below(4) as u32; let it = gen_item(&mut rng, d); if i < 40 { emit_sample(&format!("item {} = {}", to_coq(&it), hex(&encode(&it)))) } run_item(&it, "core-item", oo) }
             8 => { let d = rng.below(4) as u32; let it = gen_item(&mut rng, d); let mut b = encode(&it); for _ in 0..=rng.below(2) { b = mutate(&mut rng, &b) } run_core(&b, "core-mutated", oo) }
             _ => { let l = rng.below(10) as usize; let mut b = rng.bytes(l); if !b.is_empty() && rng.bool() { b[0] = *rng.pick(&[0x9fu8, 0xbf, 0x5f, 0x7f, 0x82, 0xa1, 0xc1, 0xd8, 0xf8, 0xf9, 0xff, 0x38, 0x3b, 0x1c, 0x78, 0x61]) } run_core(&b, "core-random", oo) }
